@@ -897,6 +897,7 @@ class PG(G):
         self.has_array_oos = False
         self.verb = "put"
         self.in_subr = False
+        self.params = set()
 
     # ---- blocks
     def block(self, nmin=1, nmax=3, loop=False):
@@ -923,6 +924,8 @@ class PG(G):
         e = self.expr(ty, r.choice([1, 2, 2, 3]))
         if decl is None:
             decl = r.random() < 0.35
+        if name in self.params:
+            decl = False      # re-declaring a parameter is a (known, separately tested) error case
         self.assigned.add(name)
         if decl:
             return [("decl", r.choice(TYPEKW[ty]), name, e)]
@@ -1217,6 +1220,7 @@ class PG(G):
         r = self.rng
         kind = r.choice(["rec", "str", "map", "free", "arr"])
         saved = (self.allow_rec, self.assigned, self.in_func, self.ret_type, self.nest, self.loop_depth)
+        self.params = {"i0", "i1", "s0", "m0", "a0"}
         self.allow_rec = False
         self.in_func = True
         self.nest = 1
@@ -1263,6 +1267,7 @@ class PG(G):
                 sig = (["int", "int"], "int")
             return fn, sig
         finally:
+            self.params = set()
             self.allow_rec, self.assigned, self.in_func, self.ret_type, self.nest, self.loop_depth = saved
 
     def expr(self, ty, d=None):
@@ -1281,6 +1286,7 @@ class PG(G):
         self.nest = 1
         self.loop_depth = 0
         self.in_subr = True
+        self.params = {"s0", "i0"}
         try:
             self.assigned = {"s0", "i0"}
             body = [("print", [("bin", ".", ("local", "s0"), ("str", ":")), ("local", "i0")])] if r.random() < 0.6 else []
@@ -1291,6 +1297,7 @@ class PG(G):
             return ("subr", name, [(r.choice(["str", None]), "s0"), (r.choice(["int", None]), "i0")], body), ["str", "int"]
         finally:
             self.in_subr = False
+            self.params = set()
             self.allow_rec, self.assigned, self.in_func, self.ret_type, self.nest, self.loop_depth = saved
 
     def program(self):
